@@ -1,0 +1,56 @@
+//go:build verif
+
+// Contracts for the govc verifier (/verif). This file contains comments only; it is compiled
+// only under the build tag "verif" and contributes no declarations.
+package groupsig
+
+// ---------------------------------------------------------------------------------------------
+// Abstract BLS signatures (C15). The pairing arithmetic is outside the verifier's reach: "sig is a valid
+// signature of message m under public key pk" is the uninterpreted predicate sigOK, and VerifySig is
+// trusted to decide exactly it. Keys, signatures and ids are compared as the values the code passes
+// around (structs holding a pointer to a curve point, never mutated after creation).
+
+//@ spec abstract fn sigOK(pk Pubkey, m Bytes, s Signature) bool
+//@ spec abstract fn hexOf(id ID) string
+//@ spec abstract fn idOf(b Bytes) ID
+
+//@ func VerifySig
+//@   option trusted
+//@   ensures result == sigOK(pub, old(bytes(msg)), sig)
+//@   modifies nothing
+
+//@ func ID.GetHexString
+//@   option trusted
+//@   ensures result == hexOf(id)
+//@   modifies nothing
+
+//@ func DeserializeID
+//@   option trusted
+//@   ensures result == idOf(old(bytes(bs)))
+//@   modifies nothing
+
+//@ func DeserializeSign
+//@   option trusted
+//@   ensures result != nil && fresh(result)
+//@   modifies nothing
+
+//@ func Signature.Serialize
+//@   option trusted
+//@   modifies nothing
+
+//@ func Signature.IsNil
+//@   option trusted
+//@   modifies nothing
+
+//@ func Signature.IsValid
+//@   option trusted
+//@   modifies nothing
+
+//@ func Signature.GetHexString
+//@   option trusted
+//@   modifies nothing
+
+// Threshold recovery (Lagrange interpolation in the exponent): C13 territory, trusted here.
+//@ func RecoverGroupSignature
+//@   option trusted
+//@   modifies nothing
